@@ -83,6 +83,10 @@ func canonLine(l string) string {
 }
 
 func canonEnded(connect string) string {
+	// Close() at the end of a script makes Connect return nil; anything else was the real outcome
+	if strings.HasPrefix(connect, "closed-at-end:") && connect != "closed-at-end:nil" {
+		connect = strings.TrimPrefix(connect, "closed-at-end:")
+	}
 	switch {
 	case strings.HasPrefix(connect, "errevent:"):
 		t := connect[len("errevent:"):]
@@ -132,8 +136,13 @@ func (c *Ctx) CompareSession(sc SessCfg, steps []string, tlsActive, stsRecentlyF
 			if strings.Contains(line, "\x01") {
 				s.Steps = append(s.Steps, Step{Op: "sleep"}, Step{Op: "barrier"})
 			}
+		case 'C':
+			f := strings.Split(st[1:], "\x00")
+			s.Steps = append(s.Steps, Step{Op: "call", Arg: f[0], Args: f[1:]}, Step{Op: "barrier"})
 		case 'D':
-			s.Steps = append(s.Steps, Step{Op: "dump"})
+			if !sc.DisableTracking {
+				s.Steps = append(s.Steps, Step{Op: "dump"})
+			}
 		}
 	}
 	res := c.RunSession(s)
@@ -169,8 +178,13 @@ func (c *Ctx) CompareSession(sc SessCfg, steps []string, tlsActive, stsRecentlyF
 	}
 	out.ImplEnd = canonEnded(res.Connect)
 
-	msteps := make([]string, len(steps))
-	copy(msteps, steps)
+	var msteps []string
+	for _, st := range steps {
+		if st[0] == 'D' && sc.DisableTracking {
+			continue
+		}
+		msteps = append(msteps, st)
+	}
 	resp := c.L.Call("run", encCfg(sc, tlsActive, stsRecentlyFailed), hxList(msteps))
 	f := strings.Split(resp, " ")
 	if len(f) != 4 {
